@@ -19,7 +19,10 @@ ConfigNames == StandardNames \cup {"none+noreply", "none", "strict.remove(b)", "
   "strict.allow=(b,a)", "compat.noreply.remove(hr)", "compat.remove(hr).noreply", "strict.attrs+(a:data-x)", "strict.attrs=(a:href)",
   "strict.rmattrs(a:target)", "strict.schemes+(a.href:tel)", "strict.schemes=(a.href:tel)", "strict.deny(a.href:http)",
   "strict.classes+(code:x*)", "strict.rmclasses(code:language-evil*)", "strict.depth2", "none.depth3", "strict.replace(b->strong)",
-  "none.allow=(b,a).attrs=(a:href).schemes=(a.href:https)", "strict.replaceattrs(a:title->data-x)"}
+  "none.allow=(b,a).attrs=(a:href).schemes=(a.href:https)", "strict.replaceattrs(a:title->data-x)",
+  \* the list options on top of the compat mode (whose extra entries an override list must replace as well)
+  "compat.schemes=(a.href:tel)", "compat.schemes+(a.href:tel)", "compat.deny(a.href:matrix)", "compat.attrs=(a:href)", "compat.allow=(b,a)",
+  "compat.classes=(code:x*)"}
 
 Config(name) ==
   CASE name = "strict" -> Base("strict", FALSE)
@@ -49,4 +52,10 @@ Config(name) ==
          [Base("none", FALSE) EXCEPT !.allow_el = L("override", {"b", "a"}), !.allow_at = Mp("override", ("a" :> {"href"})),
                                       !.allow_sc = Mp("override", ("a" :> ("href" :> {HTTPS})))]
     [] name = "strict.replaceattrs(a:title->data-x)" -> [Base("strict", FALSE) EXCEPT !.replace_at = Mp("add", ("a" :> ("title" :> "data-x")))]
+    [] name = "compat.schemes=(a.href:tel)" -> [Base("compat", FALSE) EXCEPT !.allow_sc = Mp("override", ("a" :> ("href" :> {TEL})))]
+    [] name = "compat.schemes+(a.href:tel)" -> [Base("compat", FALSE) EXCEPT !.allow_sc = Mp("add", ("a" :> ("href" :> {TEL})))]
+    [] name = "compat.deny(a.href:matrix)" -> [Base("compat", FALSE) EXCEPT !.deny_sc = ("a" :> ("href" :> {MATRIX}))]
+    [] name = "compat.attrs=(a:href)" -> [Base("compat", FALSE) EXCEPT !.allow_at = Mp("override", ("a" :> {"href"}))]
+    [] name = "compat.allow=(b,a)" -> [Base("compat", FALSE) EXCEPT !.allow_el = L("override", {"b", "a"})]
+    [] name = "compat.classes=(code:x*)" -> [Base("compat", FALSE) EXCEPT !.allow_cl = Mp("override", ("code" :> {[prefix |-> X, star |-> TRUE]}))]
 =============================================================================
